@@ -145,7 +145,9 @@ def run_case(spec):
         it0.run(prog)
     finally:
         remove_destination(rec)
-    msgs = tape.msgs("rec")
+    import json as _json
+    # as a log reader gets them: decoded from JSON text, so equal strings are distinct objects
+    msgs = [_json.loads(_json.dumps(m)) for m in tape.msgs("rec")]
     by_uuid = {}
     for m in msgs:
         by_uuid.setdefault(m["task_uuid"], []).append(m)
